@@ -79,6 +79,30 @@ def run(chk):
                 chk.violate({"kind": "property", "case": lib.show_case((c[0], c[1][:1] + [b"<%d bytes in %d pieces>" % (len(data), len(c[1]) - 1)])),
                              "impl": i[:600], "expected": want[:600],
                              "explanation": "hashing writers/readers do not pass the bytes through unchanged and report the stream's true length and digests"})
+    # hashers observed in mid-stream (Size and Sum after every write): the observation does not disturb them and
+    # reports the digest of the bytes written so far
+    ocases, ometa = [], []
+    for data in datas[:80]:
+        if len(data) > 5000:
+            continue
+        for ch in chunkings(rng, data)[2:5]:
+            names = rng.choice([["sha256"], ALGS, ["md5", "sha1"], ["sha512", "md5"]])
+            ocases.append(("hwriteobs", [",".join(names).encode()] + ch)); ometa.append((data, names, ch))
+    oi = chk.run_impl(ocases)
+    chk.record("mid-stream-observation", ocases, oi, lambda c, r: r.startswith("ok"))
+    def hashers_text(names, buf):
+        return "[]" if not names else "[ " + " ".join("( x%s %d x%s )" % (n.encode().hex(), len(buf), digest(n, buf).hex()) for n in names) + " ]"
+    for c, i, (data, names, ch) in zip(ocases, oi, ometa):
+        import zlib
+        sm = zlib.adler32(data)
+        mids, sofar = [], b""
+        for piece in ch:
+            sofar += piece
+            mids.append(hashers_text(names, sofar))
+        want = "ok %d %d %d " % (len(data), sm & 0xffff, sm >> 16) + hashers_text(names, data) + " | " + ("[]" if not mids else "[ " + " ".join(mids) + " ]")
+        if i != want:
+            chk.violate({"kind": "property", "case": lib.show_case((c[0], c[1][:1] + [b"<%d bytes in %d pieces>" % (len(data), len(ch))])), "impl": i[:800], "expected": want[:800],
+                         "explanation": "a hasher read in mid-stream does not report the length and digest of the bytes written so far, or reading it disturbed the final result"})
     # verifiers
     vcases, want = [], []
     for data in datas[:60]:
